@@ -202,7 +202,7 @@ def runs_c15(tier):
 TB_W = ['unrolled loops, Duff devices and SSE2 bodies are modelled by the loop they unroll (seen only by the correspondence runs and sanitizers)']
 
 PROPS = {
-    'C01': dict(lean_modules=['M4riProofs.Props.C01'], runs=runs_c01, trusted_base=TB_W),
+    'C01': dict(lean_modules=['M4riProofs.Props.C01', 'M4riProofs.Props.C01x'], runs=runs_c01, trusted_base=TB_W),
     'C02': dict(lean_modules=['M4riProofs.Props.C02'], runs=runs_c02),
     'C03': dict(lean_modules=['M4riProofs.Props.C03'], runs=runs_c03),
     'C04': dict(lean_modules=['M4riProofs.Props.C04'], runs=runs_c04),
@@ -212,7 +212,7 @@ PROPS = {
     'C08': dict(lean_modules=['M4riProofs.Props.C08'], runs=runs_c08, trusted_base=TB_W),
     'C09': dict(lean_modules=['M4riProofs.Props.C09'], runs=runs_c09, trusted_base=TB_W),
     'C10': dict(lean_modules=['M4riProofs.Props.C10'], runs=runs_c10),
-    'C11': dict(lean_modules=['M4riProofs.Props.C11'], runs=runs_c11),
+    'C11': dict(lean_modules=['M4riProofs.Props.C11'], runs=runs_c11, extra=X.c11),
     'C12': dict(lean_modules=['M4riProofs.Props.C12'], runs=runs_c12),
     'C13': dict(lean_modules=['M4riProofs.Props.C13'], runs=runs_c13, trusted_base=TB_W),
     'C14': dict(lean_modules=['M4riProofs.Props.C14'], runs=runs_c14),
